@@ -479,8 +479,10 @@ def oracle_e2e(case, inp, res):
                                                 f"{b['ts']}/{e_in['ts'] - b['ts']}")
             continue
         pair = stmt_pair(b["name"])
-        ts_out = [int(o1["args"][f"TS{i}"]) for i in range(1, 6)]
-        delta = ts_out[pair[1]] - ts_out[pair[0]]
+        # the cycle delta of the INPUT counters (32-bit, a phase is far shorter than a wrap period) - not of the
+        # exported args.TS*, which an upstream stage rewrites together with everything derived from them
+        ts_in = [int(a[f"TS{i}"], 0) if isinstance(a[f"TS{i}"], str) else int(a[f"TS{i}"]) for i in range(1, 6)]
+        delta = (ts_in[pair[1]] - ts_in[pair[0]]) % (1 << 32)
         for o, fr in ((o1, f), (o2, f * k)):
             if not _close(o["dur"], Fraction(delta) / fr, TOL) or not (o["dur"] > 0 and math.isfinite(o["dur"])):
                 return ("c06-dur", f"exported slice {uid} '{b['name']}': dur {o['dur']} != (TS{pair[1]+1}-TS{pair[0]+1})/freq "
